@@ -28,7 +28,10 @@ def gen_col(rng, n, dt=None):
     else:
         lo, hi = rng.choice([(-3, 3), (-9, 9), (0, 2), (-99, 99)])
         v = [rng.randint(lo, hi) for _ in range(n)]
-    return {'dt': dt, 'v': v}
+    col = {'dt': dt, 'v': v}
+    if rng.random() < 0.3:
+        col['layout'] = rng.choice(['strided', 'reversed', 'struct'])      # memory layout of the array handed in
+    return col
 
 
 def gen_sel(rng, n, valid=True):
@@ -132,7 +135,7 @@ def gen_sequence(rng, length):
         newname = lambda: rng.choice(have if (bad and have) or not other else other)   # noqa: E731
         k = rng.choice(['append', 'append', 'appendField', 'setItem', 'setItem', 'removeField', 'rename', 'rename',
                         'tidyUp', 'getSel', 'getSel', 'setSel', 'setSel', 'sortBy', 'sortBy', 'copy', 'setDtype',
-                        'convert', 'indices', 'indices', 'new', 'appendFieldFrom', 'setItemFrom', 'setItemFrom', 'newShared', 'freeze'])
+                        'convert', 'indices', 'indices', 'new', 'appendFieldFrom', 'setItemFrom', 'setItemFrom', 'newShared', 'freeze', 'poke', 'poke'])
         if k in ('getSel', 'copy', 'new', 'newShared') and len(tabs) >= 6:
             k = 'indices'
         if k == 'append':
@@ -209,6 +212,10 @@ def gen_sequence(rng, length):
             emit({'op': k, 'c': c, 'n': n, 'd': d, 'm': m})
         elif k == 'newShared':
             emit({'op': 'newShared', 'd': c, 'm': anyname()})
+        elif k == 'poke':
+            # the caller writes into the array it got from __getitem__
+            emit({'op': 'poke', 'd': c, 'm': anyname(), 'k': rng.randrange(0, t.n + (2 if bad else 0) + (0 if t.n else 1)) if (t.n or bad) else 0,
+                  'v': rng.randint(-9, 9)})
         elif k == 'freeze':
             if have:
                 emit({'op': 'freeze', 'd': c, 'm': rng.choice(have)})     # this column becomes a read-only array
@@ -251,6 +258,7 @@ EXH_FULL = EXH_ALPHABET + [
     {'op': 'freeze', 'd': 0, 'm': 0},                                   # column 0 becomes a read-only array
     {'op': 'new', 'cols': [[0, {'dt': 'i64', 'v': [1, 2, 3]}], [1, {'dt': 'f32', 'v': [4]}]]},   # unequal lengths: raises
     {'op': 'sortBy', 'c': 0, 'n': 5},                                   # missing key field: raises
+    {'op': 'poke', 'd': 0, 'm': 0, 'k': 1, 'v': 9},                     # the caller writes into t['ra'] (live array)
     {'op': 'tidyUp', 'c': 0, 'keep': [4], 'form': 'str'},               # one name as a plain str (sin_dec; dec is a substring)
     {'op': 'copy', 'c': 0, 'keep': [5], 'form': 'str', 'via_ctor': True},   # true_ra as a plain str through the constructor
     {'op': 'rename', 'c': 0, 'convs': [[0, 5], [1, 4]], 'must': False},  # ra -> true_ra, dec -> sin_dec
@@ -277,7 +285,7 @@ def _bytes(arr):
     return (str(arr.dtype), arr.shape, np.ascontiguousarray(arr).tobytes())
 
 
-STRUCTURAL = ('new', 'getSel', 'copy', 'newShared')
+STRUCTURAL = ('new', 'getSel', 'copy', 'newShared', 'poke')
 
 
 def table_check(case):
@@ -298,6 +306,10 @@ def table_check(case):
                     before += [('column %r of container %d' % (n, ci), a[n], _bytes(a[n])) for n in a.field_name_list if n in a]
             blocked = (op['op'] == 'setSel' and 0 <= op['c'] < len(tabs)
                        and any(tabs[op['c']].cells[nm].ro for nm in tabs[op['c']].names))
+            if op['op'] == 'poke' and 0 <= op['d'] < len(tabs):
+                nm_ = UNIVERSE[op['m']]
+                blocked = nm_ in tabs[op['d']].names and tabs[op['d']].cells[nm_].ro
+                tgt_arrays = [conts[op['d']][nm_]] if nm_ in conts[op['d']] else []
             ri = sf.impl_apply(conts, op, held)
             impl_perm = ri[1][1] if (op['op'] == 'sortBy' and ri[0] == 'ok') else None
             rr = sf.ref_apply(tabs, op, impl_out=impl_perm)
@@ -305,6 +317,9 @@ def table_check(case):
             if op['op'] == 'setSel' and rr[0] == 'ok':
                 for ci in sf.written_shared(tabs, op['c']):
                     rows[ci] = None      # the row store has value semantics: these tables are no longer comparable
+            if op['op'] == 'poke' and rr[0] == 'ok':
+                for ci in sf.written_shared(tabs, op['d'], only=UNIVERSE[op['m']]):
+                    rows[ci] = None
         except (IndexError, AssertionError):
             return None          # malformed (shrunk) case
         except KeyError:
@@ -316,7 +331,7 @@ def table_check(case):
         # every other table and every caller-held array is byte-identical unless the operation writes through
         for what, arr, b in before:
             if _bytes(arr) != b:
-                if name == 'setSel' and ri[0] == 'ok' and sf.shares([arr], tgt_arrays):
+                if name in ('setSel', 'poke') and ri[0] == 'ok' and sf.shares([arr], tgt_arrays):
                     continue     # set_selection is documented to assign into the arrays of its target
                 return ('modified-in-place', name, k, '%s: %s was modified in place (%r -> %r) although %s %s' % (
                     where, what, np.frombuffer(b[2], dtype=arr.dtype).tolist()[:8], arr.tolist()[:8], name,
@@ -449,10 +464,16 @@ def compare_step(op, ri, snaps, share, ans, taint=None):
     # ---- which containers the plain tables still describe
     src = [op[x] for x in ('c', 'd') if isinstance(op.get(x), int)]
     dirty_in = any(i in taint for i in src)
+    if k == 'poke':
+        dirty_in = False        # (the outcome of a caller's write does not depend on values)
     if ri[0] == 'ok':
         if k == 'setSel':
             for ci, nm, loc in locs:
                 if ci == op['c'] and len(byloc[loc]) > 1:
+                    taint.update(x[0] for x in byloc[loc])
+        if k == 'poke':
+            for ci, nm, loc in locs:
+                if ci == op['d'] and nm == UNIVERSE[op['m']] and len(byloc[loc]) > 1:
                     taint.update(x[0] for x in byloc[loc])
         if dirty_in:
             if k in ('getSel', 'copy', 'newShared'):
@@ -666,6 +687,14 @@ def run(ctx):
         lines, recs = corr_prepare(ops)
         for (op_, ri_, _, _) in recs:
             ctx.count('outcome:%s:%s' % (op_['op'], ri_[0] if ri_[0] == 'ok' else 'err-' + str(ri_[1])))
+            if 'sel' in op_:
+                ctx.count('branch:selection by %s' % ('mask' if op_['sel']['k'] == 'm' else 'index array'))
+            if op_.get('form'):
+                ctx.count('branch:name argument as %s' % op_['form'])
+            for col_ in ([op_['col']] if 'col' in op_ else [c_[1] for c_ in op_.get('cols', [])]):
+                ctx.count('branch:handed-in array layout %s' % col_.get('layout', 'contiguous'))
+            if op_['op'] == 'new':
+                ctx.count('branch:constructor copy=%s' % (not op_.get('nocopy')))
         batch.append((case, r, lines, recs, len(all_lines)))
         all_lines += lines
     out = ctx.driver('C16', all_lines)
@@ -676,6 +705,16 @@ def run(ctx):
             if r is None:
                 report(ctx, case, d)
     ctx.extra['correspondence_disagreements'] = disagreements
+    # every outcome class of every modelled operation: an un-hit branch of the model is an untied branch
+    expected = {
+        'new': ['ok', 'err-value'], 'append': ['ok', 'err-key'], 'appendField': ['ok', 'err-key', 'err-value'],
+        'setItem': ['ok', 'err-value'], 'removeField': ['ok', 'err-key'], 'rename': ['ok', 'err-key'], 'tidyUp': ['ok'],
+        'getSel': ['ok', 'err-idxval'], 'setSel': ['ok', 'err-key', 'err-idxval'], 'sortBy': ['ok', 'err-key'], 'copy': ['ok'],
+        'setDtype': ['ok', 'err-key'], 'convert': ['ok'], 'indices': ['ok'], 'appendFieldFrom': ['ok', 'err-key', 'err-value'],
+        'setItemFrom': ['ok', 'err-key', 'err-value'], 'newShared': ['ok', 'err-key'], 'freeze': ['ok', 'err-key'],
+        'poke': ['ok', 'err-key', 'err-index', 'err-value']}
+    ctx.extra['zero_hit_branches'] = ['%s:%s' % (o, r_) for o, rs in expected.items() for r_ in rs
+                                      if ctx.counters.get('outcome:%s:%s' % (o, r_), 0) == 0]
     ctx.extra['diagnostics'] = dict(DIAG)
 
 
